@@ -49,6 +49,53 @@ def pyOKpPairs (p : Nat) : List (PyObj × PyObj) → Prop
   | (k, v) :: r => pyOKp p k ∧ pyOKp p v ∧ pyOKpPairs p r
 end
 
+mutual
+/-- The decidable part of `pyOKp` (everything but the protocol-0 float text). -/
+def pyOKb : PyObj → Bool
+  | .none => true
+  | .bool _ => true
+  | .int _ => true
+  | .float _ => true
+  | .str s => validUtf8 s
+  | .bytes _ => true
+  | .bytearray s => decide (s.length < 2 ^ 32)
+  | .tuple xs => pyOKbList xs
+  | .list xs => pyOKbList xs
+  | .dict kvs => pyOKbPairs kvs && ((pyOfPairs kvs).all fun e => pyHashable e.1) && decide (nanKeys (pyOfPairs kvs) ≤ 1)
+def pyOKbList : List PyObj → Bool
+  | [] => true
+  | x :: xs => pyOKb x && pyOKbList xs
+def pyOKbPairs : List (PyObj × PyObj) → Bool
+  | [] => true
+  | (k, v) :: r => pyOKb k && pyOKb v && pyOKbPairs r
+end
+
+mutual
+theorem pyOKp_of_b (p : Nat) (hp : p ≥ 1) : (v : PyObj) → pyOKb v = true → pyOKp p v
+  | .none, _ | .bool _, _ | .int _, _ | .bytes _, _ => by simp [pyOKp]
+  | .float _, _ => by simp only [pyOKp]; exact Or.inl hp
+  | .str s, h => by simpa [pyOKp, pyOKb] using h
+  | .bytearray s, h => by simpa [pyOKp, pyOKb] using h
+  | .tuple xs, h => by simp only [pyOKp]; exact pyOKpList_of_b p hp xs (by simpa [pyOKb] using h)
+  | .list xs, h => by simp only [pyOKp]; exact pyOKpList_of_b p hp xs (by simpa [pyOKb] using h)
+  | .dict kvs, h => by
+    simp only [pyOKb, Bool.and_eq_true, decide_eq_true_eq] at h
+    simp only [pyOKp]
+    exact ⟨pyOKpPairs_of_b p hp kvs h.1.1, h.1.2, h.2⟩
+theorem pyOKpList_of_b (p : Nat) (hp : p ≥ 1) : (xs : List PyObj) → pyOKbList xs = true → pyOKpList p xs
+  | [], _ => by simp [pyOKpList]
+  | x :: xs, h => by
+    simp only [pyOKbList, Bool.and_eq_true] at h
+    simp only [pyOKpList]
+    exact ⟨pyOKp_of_b p hp x h.1, pyOKpList_of_b p hp xs h.2⟩
+theorem pyOKpPairs_of_b (p : Nat) (hp : p ≥ 1) : (kvs : List (PyObj × PyObj)) → pyOKbPairs kvs = true → pyOKpPairs p kvs
+  | [], _ => by simp [pyOKpPairs]
+  | (k, v) :: r, h => by
+    simp only [pyOKbPairs, Bool.and_eq_true] at h
+    simp only [pyOKpPairs]
+    exact ⟨pyOKp_of_b p hp k h.1.1, pyOKp_of_b p hp v h.1.2, pyOKpPairs_of_b p hp r h.2⟩
+end
+
 /-! ### what the scalar forms parse as -/
 
 theorem parses_long1 (k : Nat) (i : Int) (hk : 0 < k) (hk2 : k < 256) (hf : fitsTwos k i = true) :
